@@ -412,9 +412,13 @@ impl WriteBuffer {
 
         let periodic_handle = thread::spawn(move || {
             let interval = WRITE_BUFFER_FLUSH_INTERVAL;
+            #[cfg(feoxdb_verif)]
+            crate::verif::sched::register_background("coordinator", 0);
 
             while !shutdown.load(Ordering::Acquire) {
                 thread::sleep(interval);
+                #[cfg(feoxdb_verif)]
+                crate::verif::sched("coord_tick");
 
                 let retirements_pending = !retirement_queue.pending.lock().is_empty();
                 for (worker_id, channel) in worker_channels.iter().enumerate() {
@@ -433,6 +437,8 @@ impl WriteBuffer {
                     }
                 }
             }
+            #[cfg(feoxdb_verif)]
+            crate::verif::sched::finish_current();
         });
 
         *self.periodic_flush_handle.get_mut() = Some(periodic_handle);
@@ -445,6 +451,8 @@ impl WriteBuffer {
         let format = get_format_ref(self.format_version);
 
         loop {
+            #[cfg(feoxdb_verif)]
+            crate::verif::sched("ff_send");
             let mut responses = Vec::with_capacity(pending_workers.len());
             for worker_id in pending_workers.drain(..) {
                 let (tx, rx) = bounded(1);
@@ -478,6 +486,8 @@ impl WriteBuffer {
             if let Some(error) = first_error {
                 return Err(error);
             }
+            #[cfg(feoxdb_verif)]
+            crate::verif::sched("ff_retire");
             if flush_pending_deletions(
                 &self.retirement_queue,
                 &self.disk_io,
@@ -542,6 +552,8 @@ impl WriteBuffer {
 /// Background worker for processing write buffer flushes
 fn write_buffer_worker(ctx: WorkerContext, flush_rx: Receiver<FlushRequest>) {
     let format = get_format_ref(ctx.format_version);
+    #[cfg(feoxdb_verif)]
+    crate::verif::sched::register_background("worker", ctx.worker_id);
 
     loop {
         if ctx.shutdown.load(Ordering::Acquire) {
@@ -561,6 +573,8 @@ fn write_buffer_worker(ctx: WorkerContext, flush_rx: Receiver<FlushRequest>) {
 
         #[cfg(feoxdb_verif)]
         crate::verif::emit("worker_req", &[], ctx.worker_id as u64, req.defer_retirements as u64, req.response.is_some() as u64);
+        #[cfg(feoxdb_verif)]
+        crate::verif::sched("wk_req");
         let result = flush_worker_shards(&ctx, format, !req.defer_retirements);
         #[cfg(feoxdb_verif)]
         crate::verif::emit("worker_done", &[], ctx.worker_id as u64, result.is_ok() as u64, matches!(result, Ok(true)) as u64);
@@ -614,6 +628,8 @@ fn write_buffer_worker(ctx: WorkerContext, flush_rx: Receiver<FlushRequest>) {
             }
         }
     }
+    #[cfg(feoxdb_verif)]
+    crate::verif::sched::finish_current();
 }
 
 fn final_flush_error_is_retryable(error: &FeoxError) -> bool {
@@ -797,6 +813,8 @@ fn process_deletions(
     }
 
     if !marker_writes.is_empty() {
+        #[cfg(feoxdb_verif)]
+        crate::verif::sched("ret_device");
         match disk_io.write().retire_extents(&marker_extents) {
             Ok(()) => {
                 #[cfg(feoxdb_verif)]
@@ -830,6 +848,8 @@ fn process_deletions(
     }
 
     releasable.sort_unstable_by_key(|entry| entry.record.sector.load(Ordering::Acquire));
+    #[cfg(feoxdb_verif)]
+    crate::verif::sched("ret_release");
     let mut free_space_guard = free_space.write();
     let mut group = Vec::with_capacity(releasable.len());
     let mut group_end = 0;
@@ -971,6 +991,8 @@ fn process_write_batch(
     }
 
     if !prepared_writes.is_empty() {
+        #[cfg(feoxdb_verif)]
+        crate::verif::sched("wb_alloc");
         let mut free_space_guard = free_space.write();
         for index in 0..prepared_writes.len() {
             let sectors_needed = prepared_writes[index].sectors_needed;
@@ -1023,6 +1045,8 @@ fn process_write_batch(
     }
 
     if !batch_writes.is_empty() {
+        #[cfg(feoxdb_verif)]
+        crate::verif::sched("wb_device");
         let mut disk_guard = disk_io.write();
         for write in &prepared_writes {
             mark_reservation_dirty(&write.entry);
@@ -1184,6 +1208,8 @@ fn process_write_batch(
         stats.record_write_flushed(prepared_writes.len() as u64);
     }
 
+    #[cfg(feoxdb_verif)]
+    crate::verif::sched("wb_batch_done");
     let result = match first_error {
         Some(error) => Err(error),
         None => Ok(()),
@@ -1439,6 +1465,8 @@ fn prepare_deferred_record_data(
     let extent = source.acquire_extent().ok_or(FeoxError::StaleExtent)?;
     #[cfg(feoxdb_verif)]
     crate::verif::emit("pin", &source.key, extent.verif_id(), source.timestamp, 1);
+    #[cfg(feoxdb_verif)]
+    crate::verif::sched("dw_pinned");
     let sector = source.sector.load(Ordering::Acquire);
     if sector == 0 {
         return Err(FeoxError::StaleExtent);
